@@ -15,7 +15,8 @@ NOT_SHOWN = {
          "against 'the numerical accuracy the library documents' is covered by the quadrature oracle only; B variants and poses: via C02 / C03",
          "the Dipole / Cuboid wrapper theorems are for mu0 := 4*pi*1e-7 (mu0R), not the exported scipy value; the proofs use mu0 != 0 only",
          "Triangle/Tetrahedron/TriangularMesh closed forms = their surface integrals (iterated one-variable integrals; not formalised); Cuboid is proved off the six face planes (on the extended face planes: oracle only)",
-         "Circle, Cylinder, CylinderSegment: need Bulirsch cel/el3 (Legendre elliptic integral) theory, absent from Mathlib v4.33",
+         "Circle off its axis: proved equal to kappa * Biot-Savart loop integral plus prefactor * (value of the cel iteration - cel integral), exactly and without hypothesis (core and wrapper); NOT shown: that Bulirsch's cel iteration converges to the cel integral (named hypothesis CelComputesIntegral of Props/C01, checked numerically on the real cel_iter / cel0 by the oracle's cel_hypothesis block), nor a bound on the truncation error at the loop exit (relative gap < 1e-8)",
+         "Cylinder, CylinderSegment: need Bulirsch cel/el3 (Legendre elliptic integral) theory, absent from Mathlib v4.33",
          "all of the above are checked against numerical quadrature of the defining integral by the oracle (rel. 2e-6 outside, 2e-4 inside)"],
  "C13": ["Cuboid = mesh = tetrahedra; Cylinder = sum of segments; partition additivity of magnets; Polyline -> Circle: equalities between different closed forms, oracle only"],
  "C14": ["flux / circulation laws for general surfaces and loops and for the elliptic-integral classes: quadrature oracle only",
